@@ -67,3 +67,35 @@ def id_generator_model(orig):
         from .sym import intern_id
         return intern_id(x)
     return _id_generator
+
+
+class AbsJson:
+    """the JSON record of an abstract compound node (result of the `to_json` contract); only `from_json` understands it"""
+    _pyvc_proxy = True
+
+    def __init__(self, node):
+        self.node = node
+
+    def __repr__(self):
+        return f"<json of {self.node!r}>"
+
+
+def from_json_model(orig):
+    """plog.from_json on the record of an abstract node: the `from_json` contract (round-trip induction hypothesis);
+    the real function otherwise"""
+    from .sym import have_ctx, ctx
+    import functools
+
+    @functools.wraps(orig)
+    def from_json(data, *a, **k):
+        from .folds import unwrap
+        if have_ctx():
+            data = unwrap(data)
+            if type(data) is AbsJson:
+                con = ctx().contracts.get("from_json")
+                if con is None:
+                    from .sym import Unsupported
+                    raise Unsupported("from_json of an abstract record without a from_json contract")
+                return con.call(data.node)
+        return orig(data, *a, **k)
+    return from_json
